@@ -28,9 +28,14 @@ class Component(PrintObject):
     if not statement:
       error(prefix + str(message))
   
+  def check_user_name(self, name):
+    """Names starting with _Anon are reserved for anonymous sequences (their numbering depends on what was compiled before)."""
+    self.assertTrue( not name.startswith("_Anon"), "Sequence name '%s' is reserved for anonymous sequences" % name )
+  
   ## Add information from document statements to object
   def add_sequence(self, name, const, length):
     if DEBUG: print("%s: sequence %s" % (self.name, name))
+    self.check_user_name(name)
     self.assertTrue( name not in self.seqs, "Duplicate sequence definition for '%s'" % name )
     try:
       seq = Sequence(name, self.prefix, const, length)
@@ -44,6 +49,7 @@ class Component(PrintObject):
     for item in old_const:
       if item[0] == sequence_flag:
         seq_name, wc = item[1]
+        self.check_user_name(seq_name)
         self.assertTrue( seq_name in self.seqs, "Sequence '%s' referenced before definion (in sequence/strand '%s')" % (seq_name, name) )
         if not wc:
           seq = self.seqs[seq_name]
@@ -53,6 +59,7 @@ class Component(PrintObject):
       
       elif item[0] == domains_flag:
         seq_name, wc = item[1]
+        self.check_user_name(seq_name)
         self.assertTrue( seq_name in self.sup_seqs, "Sequence '%s' referenced before definion (in sequence/strand '%s')" % (seq_name, name) )
         if not wc:
           seq = self.sup_seqs[seq_name]
@@ -68,6 +75,7 @@ class Component(PrintObject):
   
   def add_super_sequence(self, name, const, length):
     if DEBUG: print("%s: super-sequence %s" % (self.name, name))
+    self.check_user_name(name)
     self.assertTrue( name not in self.seqs, "Duplicate sequence definition for '%s'" % name )
     const = self.clean_const(const, name)
     try:
@@ -165,6 +173,7 @@ class Component(PrintObject):
     self.input_seqs = []
     self.input_structs = []
     for (seq_name, wc), struct_name in inputs:
+      self.check_user_name(seq_name)
       self.assertTrue( seq_name in self.seqs, "Declare statement references undefined sequence '%s'" % seq_name )
       if wc:
         self.input_seqs.append( self.seqs[seq_name].wc )
@@ -180,6 +189,7 @@ class Component(PrintObject):
     self.output_seqs = []
     self.output_structs = []
     for (seq_name, wc), struct_name in outputs:
+      self.check_user_name(seq_name)
       self.assertTrue( seq_name in self.seqs, "Declare statement references undefined sequence '%s'" % seq_name )
       if wc:
         self.output_seqs.append( self.seqs[seq_name].wc )
